@@ -17,6 +17,19 @@ def main():
     covering = cover.start(os.path.dirname(vf.env.PJPLAN_FILE)) if not directed else False
     mod = importlib.import_module(registry.REG[prop][0])
     res = {'prop': prop, 'shard': shard}
+    acc = None
+
+    class SoftDeadline(BaseException):
+        pass
+
+    def _alarm(signum, frame):
+        raise SoftDeadline()
+    if not directed:
+        # a shard that runs far over its budget (a defect that makes every call slower and slower) hands in what it has
+        # seen so far before the runner's watchdog kills it: verdicts already reached must not be lost
+        import signal
+        signal.signal(signal.SIGALRM, _alarm)
+        signal.alarm(int(seconds * 4 + 120))
     try:
         if directed:
             with open(directed) as f:
@@ -40,6 +53,12 @@ def main():
             res['cover'] = cover.hits()
         res['env'] = vf.env.repo_info() if shard == 0 else None
         res['clock_calls'] = vf.env.Clock.calls
+    except SoftDeadline:
+        if acc is not None:
+            res.update(acc.result())
+            res.setdefault('inconclusive', []).append(f'shard {shard} stopped at its soft deadline ({int(seconds * 4 + 120)} s): workload not completed')
+        else:
+            res['harness_error'] = 'soft deadline before the workload started'
     except BaseException:
         res['harness_error'] = traceback.format_exc()
     with open(out, 'w') as f:
